@@ -333,6 +333,62 @@ def special_cases(chk, hows, count):
 				chk.case("special_keys", {"how": how, "variant": variant, "seed": rng.randrange(10**9), "nl": rng.choice([1, 2, 3, 4]), "key_mode": rng.choice(["name", "vector"]),
 					"expect": rng.choice(["many_to_one", "one_to_one", "many_to_many", "one_to_many"]), "nkeys": rng.choice([2, 2, 3])}, "special-keys")
 
+def run_crossed_and_kept(chk, spec):
+	"""(a) key specs that mix names and vectors differently on the two sides are still paired position by position; (b) a join result is a table of its own:
+	writes to either input afterwards do not show in it, writes to it do not show in the inputs, and the same join asked again gives the same rows"""
+	import random, warnings
+	rng = random.Random(spec["seed"])
+	how = spec["how"]
+	nl, nr = spec["nl"] + 1, rng.choice([2, 3, 4])
+	with warnings.catch_warnings():
+		warnings.simplefilter("ignore")
+		L = Table({"a": [rng.choice([1, 2, 3]) for _ in range(nl)], "b": [rng.choice([1, 2, 3]) for _ in range(nl)], "lid": list(range(nl))})
+		R = Table({"x": [rng.choice([1, 2, 3]) for _ in range(nr)], "y": [rng.choice([1, 2, 3]) for _ in range(nr)], "rid": [10 + i for i in range(nr)]})
+		if spec["unique_right"]:
+			R = Table({"x": [1, 2, 3][:nr], "y": [1, 2, 3][:nr], "rid": [10, 11, 12][:nr]})
+		if spec["what"] == "crossed":
+			J.check_join(chk, chk.pid, "sampled", how, L, R, ["a", "b"], ["x", "y"], key_mode="crossed", expect="many_to_many", label="crossed-specs", sig=("crossed", how))
+			return
+		expect = "many_to_one" if spec["unique_right"] else "many_to_many"
+		fn = {"inner": L.inner_join, "left": L.join, "full": L.full_join}[how]
+		o = call(fn, R, "a", "x", expect=expect)
+		chk.judged("sampled", ("kept-result", how, spec["unique_right"], spec["write"]))
+		if not o.ok or not isinstance(o.value, Table) or len(o.value) == 0:
+			chk.skip("kept-result-unavailable")
+			return
+		res = o.value
+		snap_res, snap_L, snap_R = M.snap_table(res), M.snap_table(L), M.snap_table(R)
+		w = spec["write"]
+		if w == "left-cell":
+			call(L.__setitem__, (0, "lid"), 999)
+		elif w == "left-view":
+			call(L["b"].__setitem__, 0, 999)
+		elif w == "left-rename":
+			call(L.rename_column, "b", "bee")
+		elif w == "right-cell":
+			call(R.__setitem__, (0, "rid"), 999)
+		elif w in ("result-cell", "result-rename"):
+			call(res.__setitem__, (0, 2), 555) if w == "result-cell" else call(res.rename_column, "lid", "left_id")
+			if M.snap_table(L) != snap_L or M.snap_table(R) != snap_R:
+				chk.fail("a join does not modify its inputs (nor does a later write to its result)", f"join/result-shares-with-input/{how}/{w}", f"{spec!r}: writing the result changed an input: L {short(snap_L, 120)} -> {short(M.snap_table(L), 120)}", prop=chk.pid)
+			return
+		if M.snap_table(res) != snap_res:
+			chk.fail("output rows hold the values the inputs had when the join was made (a kept result does not follow later writes to an input)", f"join/result-follows-input/{how}/{w}",
+				f"{spec!r}: after {w} the kept result changed: {short(snap_res, 160)} -> {short(M.snap_table(res), 160)}", prop=chk.pid)
+
+
+RUNNERS["crossed_and_kept"] = run_crossed_and_kept
+
+
+def crossed_kept_cases(chk, hows, count):
+	rng = chk.rng
+	for how in hows:
+		for _ in range(count):
+			chk.case("crossed_and_kept", {"how": how, "what": "crossed", "seed": rng.randrange(10**9), "nl": rng.choice([1, 2, 4]), "unique_right": False, "write": None}, "crossed-specs")
+		for write in ("left-cell", "left-view", "left-rename", "right-cell", "result-cell", "result-rename"):
+			for unique_right in (True, False):
+				chk.case("crossed_and_kept", {"how": how, "what": "kept", "seed": rng.randrange(10**9), "nl": rng.choice([2, 3]), "unique_right": unique_right, "write": write}, "kept-result")
+
 
 def run_repeated_key_column(chk, spec):
 	"""a composite key that names one column twice with different partners (ship_to = cust AND bill_to = cust; a = x AND a = y): every pair counts"""
@@ -457,3 +513,4 @@ def run(chk):
 	extra_cases(chk, HOW, 150 if chk.quick() else 1000)
 	label_cases(chk, [HOW])
 	special_cases(chk, [HOW], 4 if chk.quick() else 25)
+	crossed_kept_cases(chk, [HOW], 6 if chk.quick() else 40)
